@@ -1,5 +1,5 @@
 /- C19 helper lemmas: what `GeckoSnapshot.parse` does on each kind of line `do_snapshot` writes.
-   GENERATED boilerplate (scratch generator kept in the builder's notes); every lemma is checked by Lean like any other. -/
+   The per-line blocks are repetitive on purpose (one `dead` per expression of the table); an ordinary checked Lean file. -/
 import GeckoModel.Proofs.SnapshotRegex
 import GeckoModel.Proofs.SnapshotBlock
 
